@@ -116,6 +116,8 @@ Definition civil_us (y m d h mi : Z) : Z :=
 
 (* datetime.min = 0001-01-01T00:00, the validity start of a satellite block without VALID FROM *)
 Definition min_us : Q := inject_Z (civil_us 1 1 1 0 0).
+(* datetime.max = 9999-12-31T23:59:59.999999, the validity end of a satellite block without VALID UNTIL ("still valid") *)
+Definition max_us : Q := inject_Z (civil_us 9999 12 31 23 59 + 59999999).
 
 (* ====================================================================================== doubles
    round-to-nearest-even to 53 significant bits (normal range), used only by the quirk
@@ -227,7 +229,7 @@ Inductive azi := AziQ (rows : list (list Q)) | AziS (rows : list (list string)).
 
 Record fentry := { fe_neu : list Q; fe_noazi : list Q; fe_azi : option azi }.
 
-Record satinfo := { si_cospar : string; si_code : string; si_type : string; si_until : option Q (* None = now() *) }.
+Record satinfo := { si_cospar : string; si_code : string; si_type : string; si_until : option Q (* None = the time of parsing (only with the quirk until_now) *) }.
 
 Record entry := { en_sat : option satinfo; en_elev : option (list Q); en_azim : option (list Q);
                   en_freqs : list (string * fentry) }.
@@ -261,11 +263,12 @@ Record quirks := {
   azi_strings : bool;         (* c15_azi_strings: the rows are kept as the split strings *)
   seconds_as_days : bool;     (* c15_seconds_as_days: timedelta(float(second)) adds days *)
   zen_count_float : bool;     (* c15_grid_count_float: numpy.arange length computed in binary floating point *)
-  sat_from_required : bool    (* c15_sat_without_valid_from: a satellite block without VALID FROM fails (unbound local) *)
+  sat_from_required : bool;   (* c15_sat_without_valid_from: a satellite block without VALID FROM fails (unbound local) *)
+  until_now : bool            (* c15_valid_until_now: a missing VALID UNTIL becomes datetime.now() instead of datetime.max *)
 }.
 Definition all_off : quirks :=
   {| azi_accumulates := false; azi_strings := false; seconds_as_days := false; zen_count_float := false;
-     sat_from_required := false |}.
+     sat_from_required := false; until_now := false |}.
 
 (* ====================================================================================== grids (degrees) *)
 Definition grid_count (q : quirks) (start stop step : Q) : Z :=
@@ -382,7 +385,10 @@ Definition save_correction (q : quirks) (c : cache) (d : data) : res (cache * da
                 bind (need_s "cospar_id" c) (fun cospar =>
                 bind (need_s "antenna_type" c) (fun atype =>
                 Ok (Some {| si_cospar := cospar; si_code := sat; si_type := atype;
-                            si_until := match cget "valid_until" c with Some (CT t) => Some t | _ => None end |})))
+                            si_until := match cget "valid_until" c with
+                                        | Some (CT t) => Some t
+                                        | _ => if until_now q then None else Some max_us
+                                        end |})))
             end
           else Ok None) (fun satinf =>
     bind (if first then
@@ -572,7 +578,7 @@ Definition expected_key (a : ant_m) : akey :=
 Definition expected_entry (a : ant_m) : entry :=
   {| en_sat := if String.eqb (am_sat a) "" then None
                else Some {| si_cospar := am_cospar a; si_code := am_sat a; si_type := am_type a;
-                            si_until := match am_until a with Some t => Some (valid_us t) | None => None end |};
+                            si_until := Some (match am_until a with Some t => valid_us t | None => max_us end) |};
      en_elev := if Qeq_bool (tokq (am_dzen a)) 0 then None
                 else Some (elevation_grid all_off (tokq (am_zen1 a)) (tokq (am_zen2 a)) (tokq (am_dzen a)));
      en_azim := if Qeq_bool (tokq (am_dazi a)) 0 then None else Some (azimuth_grid all_off (tokq (am_dazi a)));
@@ -734,14 +740,15 @@ Definition match_res (p : parts) (now_lo now_hi : Z) (m : res data) (o : obs) : 
 (* ====================================================================================== checks *)
 Definition quirks_of_mask (k : Z) : quirks :=
   {| azi_accumulates := Z.testbit k 0; azi_strings := Z.testbit k 1;
-     seconds_as_days := Z.testbit k 2; zen_count_float := Z.testbit k 3; sat_from_required := Z.testbit k 4 |}.
+     seconds_as_days := Z.testbit k 2; zen_count_float := Z.testbit k 3; sat_from_required := Z.testbit k 4;
+     until_now := Z.testbit k 5 |}.
 
 Definition first_some (l : list (unit -> option Z)) : option Z :=
   fold_right (fun (f : unit -> option Z) acc => match f tt with Some k => Some k | None => acc end) None l.
 
 (* 0: the observation is what the specification model computes from the file's text;
    16 + mask: it is what the model computes with exactly the quirks of [mask] (bit 0 azi_accumulates, 1 azi_strings,
-   2 seconds_as_days, 3 zen_count_float, 4 sat_from_required - the failure hides all other components), [mask] being the least explanation per component (dates, grids, patterns);
+   2 seconds_as_days, 3 zen_count_float, 4 sat_from_required - the failure hides all other components, 5 until_now), [mask] being the least explanation per component (dates, grids, patterns);
    1: neither *)
 Definition check_with (tbl : table) (case : list string * (Z * Z) * obs) : Z :=
   let '(lines, (lo, hi), o) := case in
@@ -753,7 +760,9 @@ Definition check_with (tbl : table) (case : list string * (Z * Z) * obs) : Z :=
   else
     let r13 := parse_lexed (quirks_of_mask 13) lx in
     let try := fun (p : parts) (r : res data) (k : Z) (_ : unit) => if match_res p lo hi r o then Some k else None in
-    match first_some [try P_dates r0 0%Z; try P_dates r13 4%Z],
+    match first_some [try P_dates r0 0%Z; try P_dates r13 4%Z;
+                      (fun _ => try P_dates (parse_lexed (quirks_of_mask 32) lx) 32%Z tt);
+                      (fun _ => try P_dates (parse_lexed (quirks_of_mask 36) lx) 36%Z tt)],
           first_some [try P_grids r0 0%Z; try P_grids r13 8%Z],
           first_some [try P_azi r0 0%Z; try P_azi r13 1%Z;
                       (fun _ => try P_azi (parse_lexed (quirks_of_mask 2) lx) 2%Z tt);
